@@ -29,7 +29,7 @@ CHECKS.update({
         technique="runtime monitoring: held-set monitor at the client boundary over audit raw locks",
     ),
     "C04": dict(
-        level_text="Exploration by runtime monitoring: owner-table diff across every acquisition against the leaf set computed from the harness's own description of the shape (exactly the leaves, requested mode, once each); failed try leaves nothing held and hands the key back; no blocking raw op inside try_*; closure invocations = 1 iff acquired. Exhaustive over shapes x pre-held patterns for sizes 0..3 (0..4 thorough) for try and blocking APIs, a static catalogue of happylock's own tuple/array/boxed-slice/&/&mut impls under the audit locks, plus concurrent episodes; a third of the sweep's cases are made from a destructor that runs during an unrelated unwind (thread::panicking() true throughout).",
+        level_text="Exploration by runtime monitoring: owner-table diff across every acquisition against the leaf set computed from the harness's own description of the shape (exactly the leaves, requested mode, once each); failed try leaves nothing held and hands the key back; no blocking raw op inside try_*; closure invocations = 1 iff acquired. Exhaustive over shapes x pre-held patterns for sizes 0..3 (0..4 thorough) for try and blocking APIs, a static catalogue of happylock's own tuple/array/boxed-slice/&/&mut impls under the audit locks, plus concurrent episodes and the raw-lock fault sweep (an acquisition unwound by a panicking raw operation must leave no healthy member held); a third of the sweep's cases are made from a destructor that runs during an unrelated unwind (thread::panicking() true throughout).",
         design_ref="DESIGN.md §3 C04",
         level_note="Trusted: audit owner table, the harness's flattening of its own shape description (exec.rs expected_ids).",
         technique="runtime monitoring: owner-table diff vs shape oracle, exhaustive small-shape sweep + scheduled episodes",
@@ -41,7 +41,7 @@ CHECKS.update({
         technique="runtime monitoring: reference-model (KeyModel) lock-step comparison at the client boundary",
     ),
     "C07": dict(
-        level_text="Exploration by runtime monitoring: Boxed/Ref/Retrying::try_new verdicts are compared with a flattened-multiset oracle over harness lock ids for member lists with the duplicate pair at every pair of positions and in every alias form; accepted collections are locked and must hold exactly their leaves. The compile-gated half (new/new_ref accept only owning inputs) is checked by 15 corpus routes (each with a compiling twin) and by run-time probes of which types implement OwnedLockable.",
+        level_text="Exploration by runtime monitoring: Boxed/Ref/Retrying::try_new verdicts are compared with a flattened-multiset oracle over harness lock ids for member lists with the duplicate pair at every pair of positions and in every alias form; accepted collections are locked and must hold exactly their leaves; one storage is re-checked after a slot was overwritten in place and after rejections (a verdict depends on the input alone). The compile-gated half (new/new_ref accept only owning inputs) is checked by 15 corpus routes (each with a compiling twin) and by run-time probes of which types implement OwnedLockable.",
         design_ref="DESIGN.md §3 C07",
         level_note="Trusted: DupOracle (dupfam.rs), Member dispatch. One listed known finding would be zero-sized owned units (see DESIGN.md §5 D8) — outside the dynamic generator.",
         technique="runtime monitoring: reference-model (multiset oracle) comparison over generated member lists",
@@ -59,7 +59,7 @@ CHECKS.update({
         technique="runtime monitoring: wait-while-holding detector on raw-lock events under a seeded scheduler + bounded-progress check",
     ),
     "C10": dict(
-        level_text="Exploration by runtime monitoring: an executable PoisonModel (must / may bits per Poisonable) is stepped alongside random histories of holds, panics, clear_poison and re-acquisitions through every route; is_poisoned() after every step and the Ok/Err of every Poisonable position of every acquisition must agree with it; holds taken through guard+unlock are ended by the explicit unlock function from a destructor when their section panics; holds made entirely inside an unrelated unwind may (not must) poison; a panic-free soak checks 'never spuriously poisoned'; the same model runs inside the concurrent panic episodes with a scheduling point right after every release (so a flag stored after the unlock can be overtaken). One genuine defect is recorded as a known finding (scoped closures of collections do not poison).",
+        level_text="Exploration by runtime monitoring: an executable PoisonModel (must / may bits per Poisonable) is stepped alongside random histories of holds, panics, clear_poison and re-acquisitions through every route; is_poisoned() after every step and the Ok/Err of every Poisonable position of every acquisition must agree with it; holds taken through guard+unlock are ended by the explicit unlock function from a destructor when their section panics; holds made entirely inside an unrelated unwind may (not must) poison; `&mut` views (get_mut / child_mut) of a poisoned wrapper must leave it poisoned; a panic-free soak checks 'never spuriously poisoned'; the same model runs inside the concurrent panic episodes with a scheduling point right after every release (so a flag stored after the unlock can be overtaken). One genuine defect is recorded as a known finding (scoped closures of collections do not poison).",
         design_ref="DESIGN.md §3 C10, §5 D7",
         level_note="Trusted: PoisonModel transitions (exec.rs section(), poisonfam.rs). Three-valued where the statement is silent (panics under shared holds).",
         technique="runtime monitoring: reference-model (PoisonModel) comparison over generated panic histories",
